@@ -8,16 +8,81 @@ TRUSTED_BASE = [
     "the correspondence is differential testing: agreement of /repo with the model is sampled, not proved",
 ]
 
+SRV_TB = ["the TCP runner harness/src/srv.rs + resp.rs (independent RESP client), one fresh server process per history (the harness binary in `serve` mode running ferrous::Server::run)",
+          "canonicalisation (identical in srv.rs canon_reply and Model/Server.v canon_reply): errors compared by first word, positive TTL/PTTL by sign, unordered replies sorted",
+          "model clock = logical time advanced only by SLEEP ops; histories whose real time drifts > 80 ms from it are discarded"]
+
 PROPS = {
     "C04": {
         "n": {"quick": 240, "thorough": 4000},
         "judge": True,
-        "needs_server": False,
+        "diff_is_failure": True,
         "trivial_outs": set(),
-        "rule": "cases = n command histories over TCP (ZADD ZREM ZSCORE ZCARD ZRANK ZREVRANK ZRANGE ZREVRANGE ZRANGEBYSCORE ZREVRANGEBYSCORE ZCOUNT ZINCRBY ZPOPMIN ZPOPMAX mixed with DEL/EXPIRE/RENAME/TYPE on a colliding key/member/score pool, 1 in 12 a NaN history, each ending with a dump of every pool key) + 2.5 n in-process histories on SkipList<Vec<u8>,f64> (insert/remove/get_rank/get_by_rank/range_by_rank/range_by_score, state dump after every mutation; one third with NaN scores); one evaluation = one command or skip-list operation compared between the implementation and the extracted Gallina model; distinct = distinct (operation, output) pairs",
-        "explanation": "theorems: comparator is a total preorder, tower search = linear search for all heights, skip-list invariant preserved by insert/remove for all non-NaN scores and all heights, refinement to a sorted duplicate-free list, rank/range agreement, ZRANGE/ZREVRANGE index translation = Redis rule outside the recorded classes, last member removed => key removed; tie: differential run of the server (TCP) and of SkipList (in process) against the extracted model + property oracle on the implementation's outputs",
-        "trusted_base": ["oracle: Rust std f64 <-> decimal text (the harness passes parse::<f64>() bits of every score-like argument to the model and compares score replies after re-parsing them to bits); the f64 sum of ZINCRBY is taken from the implementation's reply"],
-        "assumptions": ["no stored score is NaN (class zset-nan is a recorded finding; NaN states are modelled exactly only at the skip-list level)"],
+        "rule": "cases = n command histories over TCP (ZADD ZREM ZSCORE ZCARD ZRANK ZREVRANK ZRANGE ZREVRANGE ZRANGEBYSCORE ZREVRANGEBYSCORE ZCOUNT ZINCRBY ZPOPMIN ZPOPMAX mixed with DEL/EXPIRE/PERSIST/RENAME/TYPE/EXISTS on colliding key/member/score pools: ties, re-scoring across neighbours, +-0, +-inf, 2^53+-1, 5e-324, 1.79e308, invalid texts; rank indices and counts at 0, +-1, +-len, +-(len+-1), i64/u64 extremes; malformed share: arity, non-bulk arguments, wrong type; 1 in 12 a NaN history), each on a fresh server and ending with a dump (TYPE, ZRANGE 0 -1 WITHSCORES, ZCARD, PTTL of every pool key, KEYS *, DBSIZE) + 2.5 n in-process histories on SkipList<Vec<u8>,f64> (insert/remove/get_score/get_rank/get_by_rank/range_by_rank/range_by_score, full state dump after every mutation - with the sl_hook feature every level's chain, heights, length, level, key_index; one third with NaN scores); one evaluation = one command or skip-list operation compared between the implementation and the extracted Gallina model (score replies as f64 bit patterns); distinct = distinct (operation, output) pairs",
+        "explanation": "theorems: the comparator is a total preorder on all bit patterns; tower search = linear scan for every assignment of heights and update-vector splice = derived chains; the skip-list invariant (strictly sorted by score then member, members unique, no NaN, key_index/length/level agree) is preserved by insert/remove for all non-NaN scores and ALL heights; refinement to a sorted duplicate-free list (latest score wins); rank = position, rank/range agreement; ZRANGE/ZREVRANGE index translation = Redis' rule for all unbounded indices outside the recorded classes, and everywhere for the proposed repair; score ranges/ZCOUNT; ZPOPMIN; every command keeps every stored set well formed and non-empty over all histories; failure atomicity; last member removed => key removed; refuted: NaN stored by ZADD / ZINCRBY, NaN node unremovable, ZRANGE 0 -100, ZREVRANGE 5 10, partial multi-member ZADD, NaN bounds; tie: differential run of the real server (TCP) and of SkipList (in process) against the extracted model + an independent property oracle (reference sorted set with Redis semantics) on the implementation's outputs",
+        "trusted_base": SRV_TB + ["oracle: Rust std f64 <-> decimal text (the harness appends the parse::<f64>() bits of every bulk argument to the operation and compares score replies after re-parsing them to bits); the f64 sum of ZINCRBY is taken from the implementation's reply (Flocq's b64_plus is used only in the inf + -inf witness; the bit-level comparison is cross-checked against Flocq's b64_compare on a pool)",
+                                  "Print Assumptions: c04_zincrby_nan_refuted depends on the four standard-library axioms of the reals through Flocq; every other theorem is closed under the global context"],
+        "assumptions": ["no stored score is NaN (class zset-nan is an open finding; states after a NaN are modelled exactly at the skip-list level only, and generated at the command level only in histories that do not re-score or remove the NaN member)",
+                        "no key expires during a history (only long TTLs are generated): the engine functions of this family do not check expiry (DESIGN F-02b, property C02)"],
+    },
+    "C03": {
+        "n": {"quick": 300, "thorough": 6000},
+        "judge": True,
+        "diff_is_failure": True,
+        "trivial_outs": set(),
+        "rule": "cases = stored witnesses (corpus/C03) + systematic sweeps (every (start, stop) in [-len-2, len+2]^2 for LRANGE/LINDEX/LSET/LTRIM on lists of length <= 3 (thorough: <= 5), LREM for every count around the number of occurrences, SUNION/SINTER/SDIFF over every 1..3-key combination of {missing, set, set, other type}) + random histories of 1..70 commands of the list/set/hash families (plus SET/DEL/EXPIRE/PERSIST/TYPE) on typed colliding key pools, with a malformed share (arity, non-bulk argument, non-integer, wrong type); each history runs against a fresh server process over TCP and ends with a dump (TYPE, LRANGE 0 -1, SMEMBERS, HGETALL, PTTL of every pool key, KEYS *, DBSIZE); one evaluation = one command whose canonical reply (errors by first word, unordered replies sorted) is compared between the server and the extracted Gallina model; SPOP/SRANDMEMBER replies are fed to the model as oracle and checked for admissibility; distinct = distinct (operation, output) pairs",
+        "explanation": "theorems: LRANGE/LTRIM window = Redis rule for all lists/start/stop outside the class lrange-stop-underflow (and exact behaviour inside it), LINDEX/LSET addressing, LREM for all counts, failure atomicity of every command, no empty collection stored + unique members/fields after every history, set algebra over all combinations of existing/missing keys, soundness of SPOP/SRANDMEMBER for every admissible oracle choice, HSET/HDEL counts and lookups; refuted: 7 classes (known_findings.json); tie: differential run of the real server against the extracted model + an independent property oracle on the server's outputs (no empty collection visible, no duplicates, random picks are members, LRANGE stop<-len empty)",
+        "trusted_base": SRV_TB + ["inputs that crash the unchanged server (LREM isize::MIN, SRANDMEMBER i64::MIN / huge negative count, HINCRBY overflow) are excluded from the random stream and replayed only as known-finding witnesses"],
+        "assumptions": ["no key expires during a history (only long TTLs are generated): the engine functions of this family do not check expiry (DESIGN F-02b, property C02)",
+                        "commands are executed one at a time by the single command thread"],
+    },
+    "C01": {
+        "n": {"quick": 250, "thorough": 4000},
+        "diff_is_failure": True,
+        "trivial_outs": {"i1", ""},
+        "rule": "histories of 1-60 commands of the string/key catalogue on a 7-key colliding pool (incl. empty key, binary key), arguments from boundary pools (i64/isize/u64 extremes, non-integers, empty/binary values, option combinations, non-bulk arguments), followed by a dump (TYPE/GET/PTTL of every pool key, KEYS *, DBSIZE); one evaluation = one command's canonical reply compared between the live server and the extracted model; non-trivial = any reply other than the connect acknowledgement; distinct = distinct (command, reply) pairs",
+        "explanation": "theorems about Model/Strings.v (GETRANGE = Redis rule, INCR family checked arithmetic, failure atomicity of every command but MSET/MGET, MGET view-atomicity, well-formedness over all histories, read-after-write and frame lemmas); tie: differential TCP histories; a disagreement outside the known classes is reported as a failing input because the model is the specification there",
+        "trusted_base": SRV_TB,
+        "assumptions": ["single client connection per history (C07/C18 cover several)", "uptime below 2^40 s (ttl_limit_ms)"],
+    },
+    "C17": {
+        "n": {"quick": 60, "thorough": 1500}, "diff_is_failure": True, "trivial_outs": {"i1", ""},
+        "rule": "server started with requirepass; (a) every command name found in server.rs (read from /repo at run time) sent with 0-3 arguments and varied letter case on a fresh unauthenticated connection, followed by GET and PING on the same connection and a dataset check from an authenticated control connection; (b) random sequences on two connections of wrong passwords (all prefixes, extensions, case flips, binary), correct AUTH, arity/format errors, data commands, MULTI blocks; one evaluation = one reply compared with the model; distinct = distinct (command, reply) pairs",
+        "explanation": "theorems: gate non-interference, exact password, per-connection, generated-table obligations; tie: differential TCP runs",
+        "trusted_base": SRV_TB + ["tools/gen_tables.py: extraction of the gate arms, of names tested before the gate and of the pre-gate special cases from server.rs"],
+        "assumptions": ["commands that the model does not implement (INFO, CONFIG, CLIENT, ...) are only sent before authentication, where the gate answers uniformly"],
+    },
+    "C18": {
+        "n": {"quick": 120, "thorough": 2500}, "diff_is_failure": True, "trivial_outs": {"i1", ""},
+        "rule": "1-3 connections selecting among valid and invalid database indices and running the string/key catalogue directly and inside MULTI/EXEC, FLUSHDB/FLUSHALL, followed by a dump (KEYS *, GET, PTTL of the key pool) of databases 0,1,2,7,15 from a fresh connection; one evaluation = one reply compared with the model",
+        "explanation": "theorems: frame property of direct and queued execution, SELECT; tie: differential multi-connection histories",
+        "trusted_base": SRV_TB, "assumptions": ["script and blocking-pop paths are covered under C12/C13"],
+    },
+    "C07": {
+        "n": {"quick": 150, "thorough": 3000}, "diff_is_failure": True, "trivial_outs": {"i1", ""},
+        "rule": "2-4 connections interleaving MULTI / queued string-family commands (valid, failing at run time, unknown) / EXEC / DISCARD / WATCH / UNWATCH / SELECT / QUIT / disconnects in a deterministic total order, followed by a dump from a fresh connection; one evaluation = one reply (EXEC arrays element-wise) compared with the model",
+        "explanation": "theorems: queue inert, EXEC in order with one slot each, same as direct, state cleared; tie: differential interleaved histories",
+        "trusted_base": SRV_TB, "assumptions": ["single command thread in the implementation (replication client thread absent: master role only)"],
+    },
+    "C08": {
+        "n": {"quick": 80, "thorough": 2000}, "diff_is_failure": True, "trivial_outs": {"i1", ""},
+        "rule": "catalogue: 38 commands (every write of the string/key family plus reads and failing variants) x 4 initial states of the watched key x {other connection on the watched key, same connection, other connection on other keys only} -> WATCH, command, MULTI, SET probe, EXEC, observe nil vs array and the probe; plus random 3-connection histories with WATCH/UNWATCH/MULTI/EXEC/DISCARD/SELECT and writers; one evaluation = one reply compared with the model",
+        "explanation": "theorems: tracker soundness/completeness, EXEC abort rule, table obligations over the engine census; tie: exhaustive catalogue + random histories",
+        "trusted_base": SRV_TB + ["tools/gen_tables.py: per-function census of mark_modified call sites in engine.rs"],
+        "assumptions": ["list/set/hash/zset/stream writers are added to the catalogue as their families are merged"],
+    },
+    "C02": {
+        "n": {"quick": 40, "thorough": 600}, "diff_is_failure": True, "judge": True, "trivial_outs": {"i1", ""}, "run_timeout": 2400,
+        "rule": "sweeper paused through the VERIF hook; (a) random histories of TTL setters (PX 200/400, EX 1, SETEX, PSETEX, EXPIRE, PEXPIRE incl. <= 0), overwrites, PERSIST, RENAME, in-place modifications and reads on 4 keys (two sharing an engine shard), SLEEP 300 steps of the logical clock and full sweeper passes started at known instants, ending with a dump (VERIF INDEX 0 = key/stored deadline/indexed deadline/present, EXISTS/PTTL/GET); (b) for each of 13 racing commands x {TTL still set, TTL already cleared}: SET t PX 200, sleep, sweeper stopped between its scan and its deletions, the racing command, release, dump, another pass, dump; one evaluation = one reply or dump compared with the model; distinct = distinct (command, reply) pairs",
+        "explanation": "theorems: never-early over all interleavings of the two sweeper phases with client commands, sweeper only removes, sweep completeness, lazy expiry of GET/EXISTS, TTL bookkeeping, TTL/PTTL replies; tie: stepped/gated real sweeper on a logical clock",
+        "trusted_base": SRV_TB + ["the VERIF hook (cfg ferrous_verif): sweeper PAUSE/STEP/GATE/RELEASE/WAITING/PASSES and INDEX dump"],
+        "assumptions": ["list/set/hash/zset/stream keys are covered as their families are merged", "the clock itself and the sweeper's 1 s period are not modelled (theorems hold for any period)"],
+    },
+    "C05": {
+        "n": {"quick": 60, "thorough": 1200}, "diff_is_failure": True, "trivial_outs": {"i1", ""}, "run_timeout": 2400,
+        "rule": "raw byte streams on one connection: 1-12 (sometimes 150-250) requests per write drawn from the string/key catalogue plus hostile shapes (CR LF inside command names and arguments, fake replies inside names, empty/null arrays, non-array frames, inline PING, nested arrays, 600-byte noise arguments), optionally followed by QUIT or by one of 8 protocol violations, sent whole / byte-at-a-time / cut inside CR LF / 2-6 random cuts; the harness collects everything the server sends until quiet, decodes it with its own RESP reader and compares the canonical frame sequence and the close flag with the model; then PING on the same and on another connection",
+        "explanation": "theorems: one reply per frame, reads compose, segmentation independence, reply = one frame, client decodes exactly the replies; tie: raw-stream differential runs",
+        "trusted_base": SRV_TB, "assumptions": ["requests contain no RESP3 double frames (f64 text oracle not used at connection level)", "a read never exceeds 8192 bytes in the implementation; pipelines with QUIT or a protocol violation are kept below that"],
     },
     "C20": {
         "n": {"quick": 400, "thorough": 6000},
@@ -28,4 +93,49 @@ PROPS = {
         "trusted_base": ["oracle: Rust std f64 <-> decimal text (the harness passes parse::<f64>/to_string results to the model as a table)"],
         "assumptions": ["RespParser is driven as the server drives it: feed, then parse until None or Err"],
     },
+    "C14": {
+        "n": {"quick": 600, "thorough": 8000},
+        "judge": True,
+        "trivial_outs": {"", "i0"},
+        "rule": "cases = fixed witnesses (F-14a, F-05d, F-14b, the unit tests of pubsub.rs) + random multi-connection histories (2-5 connections; SUB/PSUB/UNSUB/PUNSUB named, all and empty; UNSUBALL; PUB; observers) over colliding pools of 10 channels and 20 patterns, each ending with a dump of every connection, every channel count and one publish per channel + the matcher on ALL (pattern, text) pairs over the alphabet {a b * ? \\} up to length 4x4 (quick) / 5x5 (thorough) + random longer pairs with texts derived from the pattern; one evaluation = one PubSubManager call (or one pattern against all texts) compared between ferrous::pubsub and the extracted Gallina model; receiver lists sorted by connection, the reported pattern of a connection with several matching patterns is an oracle checked for admissibility",
+        "explanation": "theorems: maps-consistency invariant over all histories, matcher = declarative glob (unbounded), publish delivers to exactly the connections with a matching subscription, once per connection (so the per-subscription claim is refuted: c14_delivery_refuted; partial theorem for at most one matching subscription), acknowledgement counts, nothing after unsubscribe / unsubscribe_all; tie: in-process differential run of PubSubManager + pattern_matches against the extracted model; property oracle (Redis glob semantics, per-subscription deliveries, acknowledgement counts) on the implementation's outputs",
+        "trusted_base": ["the server-level delivery of message frames (server.rs handle_publish / handle_subscribe) is not part of this check (lead's server model)"],
+        "assumptions": ["PubSubManager is driven sequentially, as the single command thread of the server does"],
+    },
+    "C19": {
+        "n": {"quick": 500, "thorough": 6000},
+        "judge": True,
+        "needs_server": False,
+        "shards": 12,
+        "trivial_outs": {"", "i0", "i1 i0"},
+        "rule": "cases = the F-19a witness + a 1205-member set (cap 1000, examined bound) + in-process histories on StorageEngine (key spaces of 3-30 keys of all five value types; SCAN with COUNT from {0,1,2,3,4,5,7,10,20,100,1000,1001}, 17 MATCH patterns, 9 TYPE filters, cursors followed from the implementation's reply and odd cursors {len-1,len,len+1,2^63,2^64-1}; additions, deletions and (x- cases) expiries of keys between the calls of an iteration; HSCAN/SSCAN/ZSCAN over collections below and above COUNT, NOVALUES, wrong-type / missing / expired keys, member additions/removals between calls) + command-level histories over TCP (option parsing incl. missing values, bad counts, lower case, non-bulk arguments; cursor parsing; HSCAN/SSCAN/ZSCAN on missing and wrong-type keys), each TCP history ending with SCAN 0 COUNT 1000, KEYS *, DBSIZE; one evaluation = one engine call or one command compared with the extracted Gallina model; unordered fast-path replies sorted",
+        "explanation": "theorems: static completeness (a full iteration over an unchanged key space returns exactly the matching live keys, each once), termination measure, soundness, completeness under modifications that sort at or after the position reached, refutation of the unrestricted claim (c19_concurrent_refuted, F-19a); tie: differential run of engine.rs scan/hscan/sscan/zscan and commands/scan.rs against the extracted model; property oracle: every key present throughout a complete iteration is returned (class scan-shift when a key below the position reached was added or deleted), nothing foreign is returned",
+        "trusted_base": ["oracle: Rust std f64 Display for ZSCAN scores that are not integers below 2^53 (text taken from the implementation)", "MATCH on keys that are not valid UTF-8 goes through from_utf8_lossy in the implementation; the model matches bytes (generator: ASCII plus isolated invalid bytes)"],
+        "assumptions": ["x- cases: real sleeps make short TTLs pass; a key that was given a short TTL is not written again in that case (sweeper timing)"],
+    },
+    "C15": {
+        "n": {"quick": 400, "thorough": 5000},
+        "judge": True, "needs_server": False, "shards": 8,
+        "trivial_outs": set(),
+        "rule": "cases = histories of XADD (auto IDs with bursts, explicit ascending / equal / smaller / future / malformed IDs), XDEL, XTRIM, XRANGE/XREVRANGE/XREAD with bounds below, inside, between and above the stored IDs with and without COUNT, XLEN, DEL/RENAME, arity and non-bulk errors, on 4 stream keys + a string key, each ending with a dump (TYPE, XLEN, XRANGE - +, XINFO, XPENDING per group, KEYS, DBSIZE); one evaluation = one command's canonical reply compared between the ferrous server (fresh process per history, TCP) and the extracted Gallina model; the ID of XADD * is passed to the model as an oracle and checked for admissibility",
+        "explanation": "theorems: stream invariant (sorted, ids <= last_id, atomics and length counter agree) over all histories; auto IDs exceed every earlier ID for every clock reading; refused XADD changes nothing; XRANGE/XREVRANGE/XREAD equal the filter of the present entries outside the class xrange-end-below-first; XLEN = number of present entries; tie: differential run against the server + property oracle (BTreeMap reference driven by the implementation's replies)",
+        "trusted_base": ["oracle: the wall-clock reading behind XADD * (the model accepts exactly the IDs some clock reading can produce)"],
+        "assumptions": ["std's binary_search contract on a sorted duplicate-free Vec (sortedness is a proved invariant of the model)", "single command thread: compare_exchange_weak on the ID atomics never fails spuriously"],
+    },
+    "C16": {
+        "n": {"quick": 400, "thorough": 5000},
+        "judge": True, "needs_server": False, "shards": 8,
+        "trivial_outs": set(),
+        "rule": "cases = histories over 2 streams x 2 groups x 3 consumers: XGROUP CREATE/DESTROY/SETID/CREATECONSUMER/DELCONSUMER, XREADGROUP (> and explicit IDs, COUNT, NOACK, BLOCK, several keys), XACK (repeated, unknown IDs), XCLAIM (idle thresholds 0 / 200 ms / never, FORCE, JUSTID), XPENDING (summary, ranges, per consumer), XINFO, XADD/XDEL/XTRIM/DEL/RENAME in between, 450 ms sleeps for the idle thresholds, each ending with a dump of every group's pending state; one evaluation = one command's canonical reply compared between the ferrous server and the extracted Gallina model (idle times zeroed on both sides)",
+        "explanation": "theorems: the four representations of the pending set agree over all histories of >-reads, XACK, XCLAIM, DELCONSUMER, CREATECONSUMER, DESTROY; > delivers in strictly increasing ID order, each entry once; XACK counts once; XPENDING summary equals the pending set; refuted: $ start, NOACK, explicit-ID read, SETID re-delivery",
+        "trusted_base": ["idle times are compared through thresholds separated from the harness clock drift (80 ms) by 450 ms sleeps"],
+        "assumptions": ["single command thread (no concurrent access to a group)"],
+    },
 }
+
+
+def gen_tables():
+    import subprocess, os, sys
+    here = os.path.dirname(os.path.abspath(__file__))
+    p = subprocess.run([sys.executable, os.path.join(here, "gen_tables.py")], stdout=subprocess.PIPE, stderr=subprocess.STDOUT, text=True)
+    return p.returncode == 0, p.stdout[-500:]
